@@ -118,7 +118,9 @@ protected:
         public internal::IntrusiveId<
             typename boost::mpl::if_c<HasId, uint32_t, void>::type> {
     friend class LC_Linear_Graph;
-    int numEdges;
+    // the edge records are laid out directly behind the node record: keep
+    // the node record (size and alignment) a multiple of their alignment
+    alignas(EdgeInfo) int numEdges;
 
     EdgeInfo* edgeBegin() {
       NodeInfo* n = this;
